@@ -151,3 +151,115 @@ package main
 //@ func (*OAuthProxy).SaveSession
 //@ prop C13
 //@ ensures[store-save-passthrough] ret0 == ret(Save) && arg(Save, 2) == s && recv(Save) == p.sessionStore
+
+// ---------------------------------------------------------------- C08: e-mail and group rules
+//@ define lastAtom(e string) string = strings.Split(e, "@")[len(strings.Split(e, "@")) - 1]
+//@ define domainRule(e string, d string) bool = HasSuffix(e, "@" + d) || (HasPrefix(d, ".") && HasSuffix(lastAtom(e), d))
+//@     || (HasPrefix(d, "*.") && HasSuffix(lastAtom(e), d[1:]))
+
+//@ prop C08
+//@ lemma[NoLookalike] forall e string, d string :: domainRule(e, d) && !HasPrefix(d, ".") && !HasPrefix(d, "*.") ==> HasSuffix(e, "@" + d)
+//@ lemma[DotNeedsDot] forall e string, d string :: domainRule(e, d) && HasPrefix(d, ".") && !HasSuffix(e, "@" + d) ==> HasSuffix(lastAtom(e), d)
+
+//@ func isEmailValidWithDomains
+//@ safety
+//@ nomod
+//@ prop C08
+//@ loop 0 invariant[no-earlier-domain-matched] rangeindex >= -1 && forall j int :: 0 <= j && j <= rangeindex ==> !domainRule(email, allowedDomains[j])
+//@ ensures[only-if-some-domain-rule-matches] result ==> exists k int :: 0 <= k && k < len(allowedDomains) && domainRule(email, allowedDomains[k])
+//@ ensures[if-some-domain-rule-matches] !result ==> forall j int :: 0 <= j && j < len(allowedDomains) ==> !domainRule(email, allowedDomains[j])
+
+//@ func newValidatorImpl$1
+//@ nomod
+//@ prop C08
+//@ ensures[empty-email-never-valid] email == "" ==> !valid
+//@ ensures[rule] email != "" ==> (valid <==> allowAll || ret(isEmailValidWithDomains) || (called(IsValid) && ret(IsValid)))
+//@ ensures[checks-the-lowercased-email] email != "" ==> arg(isEmailValidWithDomains, 0) == strings.ToLower(email)
+//@     && arg(isEmailValidWithDomains, 1) == domains && (called(IsValid) ==> arg(IsValid, 1) == strings.ToLower(email))
+
+//@ func (*UserMap).IsValid
+//@ nomod
+//@ prop C08 C20
+
+// auth-only query constraints: each constraint function is a deterministic read-only predicate of (request, session)
+//@ abstract holds(ref, ref, ref) bool
+//@ func funcval constraint
+//@ nomod
+//@ ensures result == holds(self, a0, a1)
+
+//@ func authOnlyAuthorize
+//@ safety
+//@ prop C08
+//@ loop 0 invariant[all-earlier-constraints-held] rangeindex >= -1 && rangeindex < 3 && forall j int :: 0 <= j && j <= rangeindex ==> holds(constraints[j], req, s)
+//@ ensures[bypassed-request-has-no-session-to-check] s == nil ==> result
+//@ ensures[all-three-constraints-must-hold] s != nil && result ==> len(constraints) == 3
+//@     && constraints[0] == checkAllowedGroups && constraints[1] == checkAllowedEmailDomains && constraints[2] == checkAllowedEmails
+//@     && holds(constraints[0], req, s) && holds(constraints[1], req, s) && holds(constraints[2], req, s)
+
+//@ func checkAllowedGroups
+//@ safety
+//@ prop C08
+//@ loop 0 invariant[no-earlier-group-allowed] rangeindex >= -1 && forall j int :: 0 <= j && j <= rangeindex ==> !inmap(allowedGroups, s.Groups[j])
+//@ ensures[unconstrained] len(ret(extractAllowedEntities)) == 0 ==> result
+//@ ensures[needs-a-common-group] len(ret(extractAllowedEntities)) != 0 ==>
+//@     (result <==> exists k int :: 0 <= k && k < len(s.Groups) && inmap(ret(extractAllowedEntities), s.Groups[k]))
+//@ ensures[reads-allowed_groups] arg(extractAllowedEntities, 1) == "allowed_groups" && arg(extractAllowedEntities, 0) == req
+
+//@ func checkAllowedEmails
+//@ safety
+//@ prop C08
+//@ ensures[unconstrained] len(ret(extractAllowedEntities)) == 0 ==> result
+//@ ensures[needs-the-email-listed] len(ret(extractAllowedEntities)) != 0 && result ==> inmap(ret(extractAllowedEntities), s.Email)
+//@ ensures[reads-allowed_emails] arg(extractAllowedEntities, 1) == "allowed_emails" && arg(extractAllowedEntities, 0) == req
+
+//@ func checkAllowedEmailDomains
+//@ safety
+//@ prop C08
+//@ ensures[unconstrained] len(ret(extractAllowedEntities)) == 0 ==> result
+//@ ensures[malformed-email-refused] len(ret(extractAllowedEntities)) != 0 && len(strings.Split(s.Email, "@")) != 2 ==> !result
+//@ ensures[domain-must-be-allowed] len(ret(extractAllowedEntities)) != 0 && result ==> called(IsEndpointAllowed) && ret(IsEndpointAllowed)
+//@ at call IsEndpointAllowed assert[checks-the-emails-domain] arg(IsEndpointAllowed, 0).Host == strings.Split(s.Email, "@")[1]
+//@ ensures[reads-allowed_email_domains] arg(extractAllowedEntities, 1) == "allowed_email_domains" && arg(extractAllowedEntities, 0) == req
+
+// ---------------------------------------------------------------- C15: bypass rules
+// pathPart(u): the path component of a request URI (everything before the first '?' or '#').
+//@ define pathPart(u string) string = ite(strings.IndexAny(u, "?#") >= 0, u[0:strings.IndexAny(u, "?#")], u)
+
+//@ func (*OAuthProxy).IsAllowedRequest
+//@ nomod
+//@ prop C15 C01
+//@ ensures[exactly-the-three-bypasses] result <==> (p.skipAuthPreflight && req.Method == "OPTIONS")
+//@     || (called(isAllowedRoute) && ret(isAllowedRoute)) || (called(isTrustedIP) && ret(isTrustedIP))
+//@ ensures[same-request] (called(isAllowedRoute) ==> arg(isAllowedRoute, 1) == req) && (called(isTrustedIP) ==> arg(isTrustedIP, 1) == req)
+
+//@ func isAllowedMethod
+//@ nomod
+//@ prop C15
+//@ ensures[method-equals-or-unnamed] result <==> route.method == "" || req.Method == route.method
+
+//@ func isAllowedPath
+//@ nomod
+//@ prop C15
+//@ ensures[regex-on-path-only-with-negation] result <==> (reMatch(route.pathRegex, ret(requestPath)) != route.negate)
+//@ ensures[same-request] arg(requestPath, 0) == req
+
+//@ func requestPath
+//@ safety
+//@ nomod
+//@ prop C15
+//@ ensures[path-without-query-or-fragment] result == pathPart(ret(GetRequestURI)) && arg(GetRequestURI, 0) == req
+
+//@ func (*OAuthProxy).isAllowedRoute
+//@ nomod
+//@ prop C15
+//@ ensures[only-if-a-rule-matches-method-and-path] result ==> called(isAllowedMethod) && ret(isAllowedMethod) && called(isAllowedPath) && ret(isAllowedPath)
+//@     && arg(isAllowedMethod, 1) == arg(isAllowedPath, 1) && arg(isAllowedMethod, 0) == req && arg(isAllowedPath, 0) == req
+
+//@ func (*OAuthProxy).isTrustedIP
+//@ nomod
+//@ prop C15 C16
+//@ ensures[only-members-of-the-trusted-set] result ==> called(Has) && ret(Has) && arg(Has, 1) == ret0(GetClientIP) && ret1(GetClientIP) == nil
+//@     && arg(Has, 0) == p.trustedIPs
+//@ ensures[parser-error-not-trusted] called(GetClientIP) && ret1(GetClientIP) != nil ==> !result
+//@ ensures[uses-configured-parser] called(GetClientIP) ==> arg(GetClientIP, 0) == p.realClientIPParser && arg(GetClientIP, 1) == req
+//@ ensures[members-are-trusted] called(Has) ==> result == ret(Has)
